@@ -322,6 +322,7 @@ func main() {
 	sum.Counters["scratch_handouts_checked"] = verifrt.ScratchGets
 	sum.Counters["simulated_lock_acquisitions"] = verifrt.LockAcquires
 	sum.Counters["atomic_statements_executed"] = int(verifrt.AtomicHits)
+	sum.Counters["atomic_operand_windows_executed"] = int(verifrt.SyncArgs)
 	sum.KeyCount = len(keys)
 	if len(keys) <= 400000 {
 		for k := range keys {
